@@ -107,6 +107,7 @@ class LiteralEnumProperty(PropertyProtocol):
                 data.model_copy(update={"enum": value_list, "default": data.default}),
             ]
             data.enum = None
+            data.type = None  # null is a member of the union now, a type list must not be expanded into members again
             return UnionProperty.build(
                 data=data,
                 name=name,
